@@ -1,8 +1,158 @@
-import BddVerif.Drive.Util
-/-! Driver for C15 — stub, to be written. -/
+import BddVerif.Drive.C14
+import BddVerif.Model.Expr
+/-!
+Driver for C15. Correspondence: `ExprM.evalExpr`, `ExprM.evalStringO`, `ExprM.toExpr` against the observed
+values. Property predicate on the OBSERVED values, by brute force over all valuations:
+* the truth table of the evaluated Bdd is the pointwise evaluation of the tree, the Bdd is canonical,
+  `None` exactly when a name of the tree is not in the variable set (`eval_expression` panics exactly then);
+* the exported expression denotes the function of the Bdd; evaluating it — directly and after
+  print + re-parse — gives a Bdd with the same function, and the very same array for canonical Bdds;
+* a `bdd!` form equals its method chain and both denote the intended connective.
+-/
 namespace B.Drive.C15
-open B B.Drive
+open B B.Drive B.Parser B.ExprM
+open B.Drive.C14 (sexp unsexp dec decRaw enc reference)
 
-def handle (key : String) (_ins _obs : List String) : Verdict := Verdict.bad ("key " ++ key)
+def parseNames (s : String) : Option (List Name) :=
+  if s == "~" then some [] else (s.splitOn ",").mapM decRaw
+
+def maxTT : Nat := 12
+
+/-- assignment of names induced by a valuation of the variables -/
+def envOf (vars : List Name) (v : Nat → Bool) : Name → Bool := fun s =>
+  match indexOfName vars s with
+  | some i => v i
+  | none => false
+
+def knownNames (vars : List Name) (e : Expr) : Bool := (names e).all fun s => vars.contains s
+
+/-- truth table of the observed array = pointwise evaluation of the tree -/
+def ttMatches (vars : List Name) (A : Arr) (e : Expr) : Bool :=
+  let n := vars.length
+  n > maxTT || (List.range (2 ^ n)).all fun i =>
+    evalArr A (valOfIndex n i) == evalBool e (envOf vars (valOfIndex n i))
+
+def sameFunction (n : Nat) (A B : Arr) : Bool := n > maxTT || (ttOf A n).toList == (ttOf B n).toList
+
+def showOptArr : Option Arr → String
+  | some A => showArr A
+  | none => "none"
+
+def firstFail (xs : List (Option String)) : Option String := xs.findSome? id
+
+def check (b : Bool) (clause : String) : Option String := if b then none else some clause
+
+/-- the five node shapes of `to_boolean_expression` (seven with the sub-cases) -/
+def shapeOf (nd : Node) : String :=
+  if nd.low < 2 && nd.high < 2 then (if nd.high == 1 then "shapeVar" else "shapeNotVar")
+  else if nd.low < 2 then (if nd.low == 0 then "shapeAndHigh" else "shapeOrNotHigh")
+  else if nd.high < 2 then (if nd.high == 0 then "shapeAndNotLow" else "shapeOrLow")
+  else "shapeIte"
+
+def shapes (A : Arr) : List String :=
+  if A.size ≤ 2 then ["shapeConst"] else ((A.toList.drop 2).map shapeOf).eraseDups
+
+def opTags : Expr → List String
+  | .const _ => ["const"]
+  | .var _ => ["var"]
+  | .not e => "not" :: opTags e
+  | .and l r => "and" :: (opTags l ++ opTags r)
+  | .or l r => "or" :: (opTags l ++ opTags r)
+  | .xor l r => "xor" :: (opTags l ++ opTags r)
+  | .imp l r => "imp" :: (opTags l ++ opTags r)
+  | .iff l r => "iff" :: (opTags l ++ opTags r)
+  | .cond c t e => "cond" :: (opTags c ++ opTags t ++ opTags e)
+
+def handle (key : String) (ins obs : List String) : Verdict :=
+  match key, ins, obs with
+  | "C15.eval", [ns, t], [r, r2] =>
+    match parseNames ns, unsexp t with
+    | some vars, some e =>
+      let m := evalExpr vars e
+      let model := showOptArr m ++ " " ++ (match evalExprO vars e with | .ok A => showArr A | _ => "panic")
+      let known := knownNames vars e
+      let fail :=
+        if r == "panic" then some "safe_eval_expression-panicked"
+        else if !known then firstFail [check (r == "none") "unknown-name-but-not-None", check (r2 == "panic") "eval_expression-did-not-panic-on-unknown-name"]
+        else match parseArr? r with
+          | none => some "known-names-but-None"
+          | some A => firstFail [
+              check (numVars A == vars.length) "num_vars",
+              check (ttMatches vars A e) "pointwise",
+              check (isCanon A) "canonical",
+              check (r2 == r) "eval_expression-differs-from-safe_eval_expression"]
+      { agree := model == r ++ " " ++ r2, model, fail,
+        nontrivial := (parseArr? r).any (·.size > 2),
+        tags := (if known then "known" else "unknown") :: s!"n{vars.length}" :: (opTags e).eraseDups }
+    | _, _ => Verdict.bad "args"
+  | "C15.evals", [ns, x], [r] =>
+    match parseNames ns, dec x with
+    | some vars, some cs =>
+      let model := match evalStringO vars cs with | .ok A => showArr A | _ => "panic"
+      let fail := match reference cs with
+        | none => check (r == "panic") "unparsable-string-did-not-panic"
+        | some e =>
+          if !knownNames vars e then check (r == "panic") "unknown-name-did-not-panic"
+          else match parseArr? r with
+            | none => some "valid-string-panicked"
+            | some A => firstFail [check (ttMatches vars A e) "pointwise", check (isCanon A) "canonical"]
+      { agree := model == r, model, fail, nontrivial := (parseArr? r).any (·.size > 2),
+        tags := ["string", if r == "panic" then "panic" else "ok"] }
+    | _, _ => Verdict.bad "args"
+  | "C15.export", [ns, b], [ex, direct, reparsed] =>
+    match parseNames ns, parseArr? b with
+    | some vars, some A =>
+      let n := vars.length
+      let me := toExpr vars A
+      let model := match me with
+        | .ok e => sexp e ++ " " ++ showOptArr (evalExpr vars e) ++ " " ++
+            (match parse (display e) with | .ok e2 => showOptArr (evalExpr vars e2) | _ => "none")
+        | _ => "panic - -"
+      let canonical := isCanon A
+      let reduced := isReduced A
+      -- claim: structural round trip for canonical diagrams, semantic round trip for reduced ones
+      -- (children before parents, no redundant test, no duplicate); nothing for other diagrams
+      let fail := if !reduced then none else match unsexp ex with
+        | none => some "export-panicked"
+        | some e => firstFail [
+            check (ttMatches vars A e) "export-denotes-another-function",
+            (match parseArr? direct with
+              | none => some "eval-of-export-failed"
+              | some D => firstFail [check (sameFunction n D A) "eval-of-export-differs",
+                  check (!canonical || D == A) "eval-of-export-not-identical"]),
+            (match parseArr? reparsed with
+              | none => some "reparse-of-export-failed"
+              | some D => firstFail [check (sameFunction n D A) "reparsed-export-differs",
+                  check (!canonical || D == A) "reparsed-export-not-identical"])]
+      { agree := model == ex ++ " " ++ direct ++ " " ++ reparsed, model, fail,
+        nontrivial := A.size > 2,
+        tags := (if canonical then "canonical" else if reduced then "reduced-noncanonical" else "unreduced-no-claim") ::
+          s!"n{n}" :: (if ex == "panic" then ["exportPanic"] else []) ++ shapes A }
+    | _, _ => Verdict.bad "args"
+  | "C15.exportbad", [ns, b], [ex, direct, reparsed] =>
+    match parseNames ns, parseArr? b with
+    | some vars, some A =>
+      let model := match toExpr vars A with
+        | .ok e => sexp e ++ " " ++ showOptArr (evalExpr vars e) ++ " " ++
+            (match parse (display e) with | .ok e2 => showOptArr (evalExpr vars e2) | _ => "none")
+        | _ => "panic - -"
+      -- malformed diagrams are outside the property: correspondence only
+      { agree := model == ex ++ " " ++ direct ++ " " ++ reparsed, model, fail := none, nontrivial := false,
+        tags := ["malformed", if ex == "panic" then "panic" else "ok"] }
+    | _, _ => Verdict.bad "args"
+  | "C15.macro", [idx, meaning], [eq, m, c] =>
+    match unsexp meaning with
+    | some e =>
+      let vars : List Name := [['a'], ['b'], ['c']]
+      let model := showOptArr (evalExpr vars e)
+      let fail := match parseArr? m, parseArr? c with
+        | some M, some C => firstFail [check (eq == "1" && M == C) "macro-differs-from-method-chain",
+            check (ttMatches vars M e) "macro-denotes-another-function",
+            check (ttMatches vars C e) "chain-denotes-another-function"]
+        | _, _ => some "macro-case-panicked"
+      { agree := model == m && model == c, model, fail, nontrivial := true,
+        tags := "macro" :: (if idx.toNat?.any (· < 24) then "withVars" else "plain") :: (opTags e).eraseDups }
+    | none => Verdict.bad "sexp"
+  | _, _, _ => Verdict.bad ("key " ++ key)
 
 end B.Drive.C15
